@@ -247,6 +247,31 @@ def gen_wave_cdf(draw, tier="quick"):
     }
 
 
+@st.composite
+def gen_wave_hd(draw, tier="quick"):
+    """Internal dimension 4 and 5 (x, y, z, t models; lat-lon + time has internal dimension 4): directions come from the general branch of the sphere sampler."""
+    cls = draw(st.sampled_from(["Gaussian", "Exponential", "Matern", "Stable", "Rational"]))
+    how = draw(st.sampled_from(["dim4", "dim5", "xyzt", "xyzt"]))
+    dim = 5 if how == "dim5" else 4
+    spec = {
+        "cls": cls, "dim": dim, "var": 1.0, "len_scale": draw(st.one_of(st.just(1.0), logfloat(0.2, 5.0))), "nugget": 0.0,
+        "rescale": draw(st.one_of(st.none(), logfloat(0.5, 2.0))), "anis": [1.0] * (dim - 1), "angles": [0.0] * (dim * (dim - 1) // 2),
+        "opt": draw(gens.opt_args(cls, dim, mode="accuracy")),
+    }
+    if how == "xyzt":
+        spec.update(temporal=True, spatial_dim=3)
+    _clamp_heavy_tail(spec)
+    if cls == "Matern" and spec["opt"].get("nu", 1.0) > 20:
+        spec["opt"]["nu"] = 20.0
+    return {
+        "spec": spec, "sampling": "auto", "mode_no": draw(st.sampled_from([100, 400])),
+        "seed": draw(st.integers(0, 2**31 - 1)), "seed2": draw(st.integers(0, 2**31 - 1)),
+        "pooled": 8000 if tier == "quick" else 40000,
+        "lags": draw(st.lists(logfloat(0.05, 5.0), min_size=3, max_size=5)),
+        "dir": draw(st.lists(st.floats(-1, 1), min_size=5, max_size=5)),
+    }
+
+
 def _radial_cdf(model, dim, grid):
     """Independent cdf of |k|: cumulative trapezoid of surface factor * spectral density."""
     s = np.abs(model.spectral_density(grid))
@@ -311,6 +336,8 @@ def check_wave(case, rec):
             se = math.sqrt(max(1.0 + rho2 - 2.0 * rho * rho, 1e-12) / (2.0 * Me))
             st_.z(f"mean cos(k.h)[h={h / ls:.3g} len]", val, rho, se, bias=bias)
         # (b) radial law against an independently integrated cdf (analytic spectra; Hankel only in 1-D where it is accurate to ~1%)
+        if dim > 3:
+            return st_
         kmax = float(np.quantile(rad, 0.999)) * 1.5 + 10.0 / ls
         grid = np.linspace(0.0, kmax, 20001)
         with quiet():
@@ -867,6 +894,7 @@ SUBS = [
     Sub("amp_law", gen_amp, check_amp, quick=16, thorough=120, shards_quick=2, shards_thorough=4, shrink_quick=False),
     Sub("wave_law", gen_wave, check_wave, quick=60, thorough=1200, shards_quick=5, shards_thorough=8, shrink_quick=False, budget_quick=150),
     Sub("wave_law_cdf_inversion", gen_wave_cdf, check_wave, quick=12, thorough=60, shards_quick=3, shards_thorough=6, shrink_quick=False),
+    Sub("wave_law_high_dim", gen_wave_hd, check_wave, quick=10, thorough=200, shards_quick=2, shards_thorough=4, shrink_quick=False, budget_quick=150),
     Sub("ppf_law", gen_ppf, check_ppf, quick=1600, thorough=40000, shards_quick=2, shards_thorough=4),
     Sub("mode_scaling", gen_scaling, check_scaling, quick=16, thorough=300, shards_quick=2, shards_thorough=4, shrink_quick=False, budget_quick=150),
     Sub("srf_ensemble", gen_ensemble, check_ensemble, quick=60, thorough=1200, shards_quick=4, shards_thorough=8, shrink_quick=False, budget_quick=150),
